@@ -1423,6 +1423,19 @@ func uRunX(t *testing.T, sc *uScript, out *vfWriter, scribble, quiet bool, rb *u
 			aborted = true
 		}
 	}
+	if aborted && e.rb == nil && chain != nil {
+		// a call blocked and the script was abandoned: Close is still called (under the watchdog) - it releases calls that
+		// wait for the interceptor and must itself return
+		e.mu.Lock()
+		wasClosed := e.closed
+		e.mu.Unlock()
+		if !wasClosed {
+			if ev := exec(&uStep{A: "close"}); ev != nil {
+				ev["afterabort"] = true
+				e.emit(ev)
+			}
+		}
+	}
 	if e.rb != nil {
 		e.rb.shutdown() // loops parked at a tick gate run freely again (Close waits for them)
 	}
